@@ -133,6 +133,13 @@ static void run_case(hz::Ctx &ctx, const LineCase &c, const std::function<bool(c
   if (ctx.want_sample()) ctx.put_sample(text(c.it) + "  [" + combo_name(c.combo) + "] -> " + (v.res.rc == 0 ? x86::hex(v.res.bytes.data(), v.res.bytes.size()) : std::string("EXIT_FAILURE")));
   if (!v.ok) { ctx.fail(make_failure(c, v.symptom, v.detail)); return; }
   if (extra) extra(c, v, ctx);
+  // the operand's own size keyword in front of a register operand (nasm's spelling "mov byte spl, al"): the library may refuse the line,
+  // but when it accepts it, it is the very same instruction (every register-only case; a quarter of the others)
+  { std::vector<size_t> g; bool mem = false; for (size_t k = 0; k < c.it.ops.size(); k++) { if (c.it.ops[k].k == K_GPR) g.push_back(k); if (c.it.ops[k].k == K_MEM) mem = true; }
+    uint64_t hk = hz::fnv(id) >> 13;
+    if (!g.empty() && v.res.rc == 0 && !c.it.kw_imm && (!mem || hk % 4 == 0)) { size_t k = g[(hk >> 2) % g.size()]; std::string t = text_kwreg(c.it, k); auto r = al::assemble(t, c.combo);
+      ctx.cls(r.rc == 0 ? "part:keyword-before-register-accepted" : "part:keyword-before-register-refused");
+      if (r.rc == 0 && r.bytes != v.res.bytes) { hz::Failure f = make_failure(c, "keyword-before-register", "\"" + t + "\" is accepted and gives " + x86::hex(r.bytes.data(), r.bytes.size()) + " ; without the keyword " + x86::hex(v.res.bytes.data(), v.res.bytes.size())); f.caseid = "KR|" + std::to_string(k) + "|" + id; f.tags.push_back("group:kwreg"); ctx.fail(f); return; } } }
   if (c.it.cls != "branch" && c.it.cls != "branchind" && c.it.cls != "branchfar") bulk_add(ctx, c, v.res.bytes);
   // a sample of every corpus is also assembled behind a context line and where chunk fitting has to re-encode it
   uint64_t hsel = hz::fnv(id) >> 9;
@@ -164,12 +171,6 @@ void prop_c01(hz::Ctx &ctx) {
       for (int combo = 0; combo < 12; combo++) { LineCase c{it, combo}; run_case(ctx, c, nontriv, [](const LineCase &c, const Verdict &v, hz::Ctx &ctx) {
         // nopN must be exactly N bytes long
         if (c.it.mn.rfind("nop", 0) == 0) { int want = c.it.mn.size() > 3 ? atoi(c.it.mn.c_str() + 3) : 1; if ((int)v.res.bytes.size() != want) ctx.fail(make_failure(c, "noplen", "nop length " + std::to_string(v.res.bytes.size()))); }
-        // the operand's own size keyword in front of a register operand (nasm's spelling "mov byte spl, al"): the library may refuse the line,
-        // but when it accepts it, it is the very same instruction
-        { std::vector<size_t> g; for (size_t k = 0; k < c.it.ops.size(); k++) if (c.it.ops[k].k == K_GPR) g.push_back(k);
-          if (!g.empty() && v.res.rc == 0) { size_t k = g[(hz::fnv(serialize(c)) >> 13) % g.size()]; std::string t = text_kwreg(c.it, k); auto r = al::assemble(t, c.combo);
-            ctx.cls(r.rc == 0 ? "part:keyword-before-register-accepted" : "part:keyword-before-register-refused");
-            if (r.rc == 0 && r.bytes != v.res.bytes) { hz::Failure f = make_failure(c, "keyword-before-register", "\"" + t + "\" is accepted and gives " + x86::hex(r.bytes.data(), r.bytes.size()) + " ; without the keyword " + x86::hex(v.res.bytes.data(), v.res.bytes.size())); f.caseid = "KR|" + std::to_string(k) + "|" + serialize(c); f.tags.push_back("group:kwreg"); ctx.fail(f); } } }
       }); }
     });
   }
